@@ -18,6 +18,11 @@ C13 basis ansi start num  -> ok n:m,…            modes of make_zernike_basis(n
 C13 normsq n m            -> ok q                (n+1)·(2 if m≠0)
 C13 radial n m r          -> ok q                zernike_radial (repaired)
 C13 radialold n m r       -> ok q | nan          unrepaired recurrence (n-|m| even, |m| ≤ n)
+C13 pairs nmax            -> ok n:m,…            `pairs nmax`: the valid (n, m ≥ 0) with n ≤ nmax (the range of `radial_table`)
+C13 poly n m              -> ok [q…]             `radialPoly n |m|`: coefficients (of r^0, r^1, …) the q-recursion produces
+C13 defpoly n m           -> ok [q…]             `radialDef n |m|`: coefficients of the factorial definition
+C13 polyeval n m r        -> ok q                `peval (radialPoly n |m|) r`
+C13 ortho n n' m          -> ok q                `pint01 (pshift 1 (pmul (radialPoly n m) (radialPoly n' m)))` = ∫₀¹ R_n^m R_n'^m r dr
 C13 memo D r c s old|new n:m:cut,…  -> ok [q…]   request history against one cache at one point
 C13 pts sep [R…] [c…] [s…]                       store a separated polar grid (axes R and (cos θ, sin θ)); `mode` then
                                                  answers in the code's layout (`plainA`: index iθ·nr + ir)
@@ -171,6 +176,29 @@ def step (st : St) : List String → St × String
     match parseNat? n, parseInt? m, parseRat? r with
     | some n, some m, some r =>
       if !valid n m then (st, "err value") else (st, "ok " ++ showRat (radialEval n m.natAbs r))
+    | _, _, _ => (st, "bad-op")
+  | ["pairs", nmax] =>
+    match parseNat? nmax with
+    | some nmax => (st, "ok " ++ ",".intercalate ((pairs nmax).map fun (n, m) => s!"{n}:{m}"))
+    | none => (st, "bad-op")
+  | ["poly", n, m] =>
+    match parseNat? n, parseInt? m with
+    | some n, some m => if !valid n m then (st, "err value") else (st, "ok " ++ showRatList (radialPoly n m.natAbs))
+    | _, _ => (st, "bad-op")
+  | ["defpoly", n, m] =>
+    match parseNat? n, parseInt? m with
+    | some n, some m => if !valid n m then (st, "err value") else (st, "ok " ++ showRatList (radialDef n m.natAbs))
+    | _, _ => (st, "bad-op")
+  | ["polyeval", n, m, r] =>
+    match parseNat? n, parseInt? m, parseRat? r with
+    | some n, some m, some r =>
+      if !valid n m then (st, "err value") else (st, "ok " ++ showRat (peval (radialPoly n m.natAbs) r))
+    | _, _, _ => (st, "bad-op")
+  | ["ortho", n, n', m] =>
+    match parseNat? n, parseNat? n', parseNat? m with
+    | some n, some n', some m =>
+      if !valid n m || !valid n' m then (st, "err value") else
+      (st, "ok " ++ showRat (pint01 (pshift 1 (pmul (radialPoly n m) (radialPoly n' m)))))
     | _, _, _ => (st, "bad-op")
   | ["radialold", n, m, r] =>
     match parseNat? n, parseInt? m, parseRat? r with
